@@ -693,6 +693,14 @@ def build_corpus(tier, seed):
     return progs
 
 
+def edition_for(tag):
+    """Corpora of odd seeds are compiled as edition-2021 crates, those of even seeds as edition 2018: the macro's output
+    takes the edition of the calling crate (closure captures, prelude, reserved syntax differ)."""
+    import re
+    digits = re.sub(r"\D", "", tag)
+    return "2021" if digits and int(digits) % 2 == 1 else "2018"
+
+
 def write_crate(outdir, join_repo, vrt_path, progs, nshards=16, tag="x", skip=()):
     import os
     os.makedirs(os.path.join(outdir, "src", "bin"), exist_ok=True)
@@ -700,7 +708,7 @@ def write_crate(outdir, join_repo, vrt_path, progs, nshards=16, tag="x", skip=()
         f.write("""[package]
 name = "probe_corpus"
 version = "0.1.0"
-edition = "2018"
+edition = "%s"
 
 [dependencies]
 join = { path = "%s/join" }
@@ -714,7 +722,7 @@ incremental = false
 opt-level = 0
 
 [workspace]
-""" % (join_repo, vrt_path))
+""" % (edition_for(tag), join_repo, vrt_path))
     shards = [[] for _ in range(nshards)]
     # balance by estimated compile cost
     cost = [0.0] * nshards
